@@ -1,4 +1,5 @@
 import NflowsModel.Audit.Tool
 import NflowsModel.Properties.C06
+import NflowsModel.Properties.C06A
 
 #audit_namespace Properties.C06
